@@ -27,10 +27,10 @@ COLSPECS_FULL = [
     {"T": "INT"},
 ]
 # the last spec names a column like a table ("T"): table-name and column-name normalisation share caches
-COLSPECS_QUICK = [None, {"a": "INT"}, {"b": "TEXT"}, {"T": "INT"}]
+COLSPECS_QUICK = [None, {"a": "INT"}, {"b": "TEXT"}]
 
 KINDS_FULL = ["names", "type_a", "type_b", "has_a", "has_b", "has_T", "find_TF", "find_TT", "find_FF", "find_FT", "names_tbl"]
-KINDS_QUICK = ["names", "type_a", "find_FT", "has_T"]
+KINDS_QUICK = ["names", "type_a", "find_FT"]
 
 
 def q(name: str, dialect: str) -> str:
